@@ -84,7 +84,7 @@ impl Prop for C11 {
             .boxed()
     }
     fn random_cases(&self, tier: Tier) -> u32 {
-        tier.pick(30_000, 600_000)
+        tier.pick(250_000, 2_500_000)
     }
     fn check(&self, case: &ClusterCase) -> Outcome {
         let mut out = Outcome::new();
